@@ -55,7 +55,7 @@ def suite_passes(d):
 
 
 def run_check(d, prop, tier):
-    env = dict(os.environ, VERIF_REPO=d)
+    env = dict(os.environ, VERIF_REPO=d, VERIF_BUILD_ROOT=os.path.join(d, "_build"))
     t0 = time.time()
     rc, out = sh([sys.executable, os.path.join(VERIF, "sim", "run.py"), "check", prop, "--tier", tier], cwd=VERIF, env=env)
     keys = [l.strip() for l in out.split("\n") if l.strip().startswith("key=")]
